@@ -147,3 +147,10 @@ Definition wdone (p : wpc) : bool := match p with WDone _ => true | _ => false e
 Definition blocked_schedule (n : nat) : list waction :=
   flat_map (fun i => [WCall; WLock i; WOk i]) (seq 0 n) ++
   [WCall; PeerStall; WLock n; SCall; SClose; WErr n; RdErr; RdChk; RdExit; SWaitDone].
+
+(* the schedule of the same class when no Send was in flight when Stop closed the connection
+   (the kernel took everything, or the last Send completed just before): n sends complete,
+   the peer stalls, Stop is called; then everything internal that can run *)
+Definition unblocked_schedule (n : nat) : list waction :=
+  flat_map (fun i => [WCall; WLock i; WOk i]) (seq 0 n) ++
+  [PeerStall; SCall; SClose; RdErr; RdChk; RdExit; SWaitDone].
